@@ -127,22 +127,28 @@ theorem lstrip_replicate (k : Nat) (x : UInt8) (rest : Bytes) (hx : x ≠ STX) :
 /-! latin-1 decoding never fails -/
 theorem latin1_dec (b : Bytes) : latin1.dec b = .ok (b.map fun x => Char.ofNat x.toNat) := rfl
 
-theorem decodeItems_latin1 (bs : List Bytes) : ∃ v, decodeItems latin1 bs = .ok v := by
-  induction bs with
+theorem mapME_total {α β : Type} (f : α → Except Err β) (h : ∀ a, ∃ b, f a = .ok b) :
+    ∀ l, ∃ v, mapME f l = .ok v := by
+  intro l
+  induction l with
   | nil => exact ⟨_, rfl⟩
-  | cons b bs ih =>
+  | cons a as ih =>
     obtain ⟨v, hv⟩ := ih
-    simp only [decodeItems, latin1_dec, hv, bind, Except.bind, pure, Except.pure]
+    obtain ⟨b, hb⟩ := h a
+    simp only [mapME, hb, hv, bind, Except.bind, pure, Except.pure]
     exact ⟨_, rfl⟩
 
-theorem decodeComponents_latin1 (bs : List Bytes) : ∃ v, decodeComponents latin1 bs = .ok v := by
-  induction bs with
-  | nil => exact ⟨_, rfl⟩
-  | cons b bs ih =>
-    obtain ⟨v, hv⟩ := ih
-    obtain ⟨w, hw⟩ := decodeItems_latin1 (splitOnByte COMPONENT_SEP b)
-    simp only [decodeComponents, decodeComponent, hw, hv, bind, Except.bind, pure, Except.pure]
-    exact ⟨_, rfl⟩
+theorem decodeItem_latin1 (b : Bytes) : ∃ v, decodeItem latin1 b = .ok v := by
+  simp only [decodeItem, latin1_dec, bind, Except.bind, pure, Except.pure]; exact ⟨_, rfl⟩
+
+theorem decodeItems_latin1 (bs : List Bytes) : ∃ v, decodeItems latin1 bs = .ok v :=
+  mapME_total _ decodeItem_latin1 bs
+
+theorem decodeComponent_latin1 (b : Bytes) : ∃ v, decodeComponent latin1 b = .ok v :=
+  decodeItems_latin1 _
+
+theorem decodeComponents_latin1 (bs : List Bytes) : ∃ v, decodeComponents latin1 bs = .ok v :=
+  mapME_total _ decodeComponent_latin1 bs
 
 theorem decodeField_latin1 (b : Bytes) : ∃ v, decodeField latin1 b = .ok v := by
   unfold decodeField
@@ -151,29 +157,20 @@ theorem decodeField_latin1 (b : Bytes) : ∃ v, decodeField latin1 b = .ok v := 
     simp only [h1, if_true, decodeRepeated, hw, bind, Except.bind, pure, Except.pure]
     exact ⟨_, rfl⟩
   · by_cases h2 : b.contains COMPONENT_SEP = true
-    · obtain ⟨w, hw⟩ := decodeItems_latin1 (splitOnByte COMPONENT_SEP b)
-      simp only [h1, h2, if_true, if_false, Bool.false_eq_true, decodeComponent, hw, bind, Except.bind, pure, Except.pure]
+    · obtain ⟨w, hw⟩ := decodeComponent_latin1 b
+      simp only [h1, h2, if_true, if_false, Bool.false_eq_true, hw, bind, Except.bind, pure, Except.pure]
       exact ⟨_, rfl⟩
-    · simp only [h1, h2, if_false, Bool.false_eq_true, latin1_dec, bind, Except.bind, pure, Except.pure]
+    · obtain ⟨w, hw⟩ := decodeItem_latin1 b
+      simp only [h1, h2, if_false, Bool.false_eq_true, hw, bind, Except.bind, pure, Except.pure]
       exact ⟨_, rfl⟩
 
-theorem decodeFields_latin1 (bs : List Bytes) : ∃ v, decodeFields latin1 bs = .ok v := by
-  induction bs with
-  | nil => exact ⟨_, rfl⟩
-  | cons b bs ih =>
-    obtain ⟨v, hv⟩ := ih
-    obtain ⟨w, hw⟩ := decodeField_latin1 b
-    simp only [decodeFields, hw, hv, bind, Except.bind, pure, Except.pure]
-    exact ⟨_, rfl⟩
+theorem decodeFields_latin1 (bs : List Bytes) : ∃ v, decodeFields latin1 bs = .ok v :=
+  mapME_total _ decodeField_latin1 bs
 
-theorem decodeRecords_latin1 (bs : List Bytes) : ∃ v, decodeRecords latin1 bs = .ok v := by
-  induction bs with
-  | nil => exact ⟨_, rfl⟩
-  | cons b bs ih =>
-    obtain ⟨v, hv⟩ := ih
-    obtain ⟨w, hw⟩ := decodeFields_latin1 (splitOnByte FIELD_SEP b)
-    simp only [decodeRecords, decodeRecord, hw, hv, bind, Except.bind, pure, Except.pure]
-    exact ⟨_, rfl⟩
+theorem decodeRecord_latin1 (b : Bytes) : ∃ v, decodeRecord latin1 b = .ok v := decodeFields_latin1 _
+
+theorem decodeRecords_latin1 (bs : List Bytes) : ∃ v, decodeRecords latin1 bs = .ok v :=
+  mapME_total _ decodeRecord_latin1 bs
 
 theorem decodeFrame_latin1 (seq : UInt8) (text term : Bytes) (hd : isDigitByte seq = true)
     (ht : term = [CR, ETX] ∨ term = [ETB]) : ∃ v, decodeFrame latin1 (seq :: text ++ term) = .ok v := by
